@@ -176,7 +176,53 @@ def field_rewrites(rep, repo, rule, skip):
             rep.check(rule, site, not probs and detail is not None,
                       detail if not probs else {'problems': sorted(set(probs))[:3]},
                       construct='positional/required', node=tg[0])
-    rep.require(sites >= 1, '%s: no signature-field rewrite found' % rule)
+    rep.require_soft(sites >= 1, '%s: no signature-field rewrite found' % rule)
+
+
+def abc_method(rep, repo, rule):
+    """ABC-derived descriptions: the function is described as written
+    (imlevel 0) and exactly the leading positional name is then removed from
+    positional and required; describing with imlevel=1 instead drops
+    co_varnames[0] whatever it is (the *args name of `def update(*args, **kw)`)"""
+    m = repo.module('common/__init__.py')
+    cls = find_def(m, 'ABCInterfaceClass')
+    from ..pyfront import methods_of
+    f = None
+    for k, v in methods_of(cls).items():
+        if k.endswith('__method_from_function'):
+            f = v
+    if f is None:
+        raise AnalysisError('anchor vanished: ABCInterfaceClass.__method_from_function')
+    probs = []
+    n = 0
+    for ps in normal(summaries(f)):
+        ff = [e for e in ps.events if e.kind == 'call' and dotted(e.r.func) == 'fromFunction']
+        if len(ff) != 1:
+            probs.append('%d fromFunction calls' % len(ff))
+            continue
+        n += 1
+        c = ff[0].r
+        kw = {k.arg: nt(k.value) for k in c.keywords}
+        if kw.get('imlevel', '0') != '0' or len(c.args) > 2:
+            probs.append('describes the function with imlevel=%s (drops '
+                         'co_varnames[0] even when it is not a positional self)'
+                         % kw.get('imlevel', '?'))
+        if [nt(a) for a in c.args[:2]] != ['function', 'self'] or kw.get('name') != 'name':
+            probs.append('described as `%s`' % nt(c)[:70])
+        D = nt(c)
+        st = {e.r.attr: nt(e.val) for e in ps.stores() if isinstance(e.r, ast.Attribute)
+              and nt(e.r.value) == D}
+        if kw.get('imlevel', '0') == '0' and st != {
+                'positional': '%s.positional[1:]' % D, 'required': '%s.required[1:]' % D}:
+            probs.append('fields rewritten: %s' % {k: v[-25:] for k, v in st.items()})
+        if nt(ps.ret) != D:
+            probs.append('returns `%s`' % nt(ps.ret)[:50])
+    if not n:
+        probs.append('no describing path')
+    rep.check(rule, 'common/__init__.py:ABCInterfaceClass.__method_from_function',
+              not probs, 'describes the ABC\'s function as written and removes the '
+              'implied self from positional and required' if not probs else
+              {'problems': sorted(set(probs))[:3]}, construct='abc-method', node=f)
 
 
 def from_method(rep, mod, rule):
